@@ -376,3 +376,34 @@ fault("C03.visited-eq", "C03", G, "                        if id(i) not in visit
 fault("C03.select-lt", "C03", TR, "            while solutions <= counter:", "            while solutions < counter:", "R03.count-decode")
 fault("C03.merge-first", "C03", G, "        self.possibilities.extend(other.possibilities)\n        self._solutions = None", "        self.possibilities.extend(other.possibilities[:1])\n        self._solutions = None", "R03.traversal")
 benign("C03.b-inline-check", "C03", TR, "    def get_tree(self, idx=0):\n        self._check_index(idx)\n", "    def get_tree(self, idx=0):\n        if idx < 0 or idx >= self.solutions:\n            raise IndexError(idx)\n")
+
+# ---------------------------------------------------------------- C14
+fault("C14.lr-fetch-no-skip", "C14", P, "                if not self.in_layout:\n                    self._skipws(head, input_str)\n", "                if not self.in_layout and self.ws:\n                    self._skipws(head, input_str)\n", "R14.skip-before-fetch")
+fault("C14.lr-always-fetch", "C14", P, "            if head.token_ahead is None:\n                if not self.in_layout:", "            if True:\n                if not self.in_layout:", "R14.skip-before-fetch")
+fault("C14.glr-fetch-first", "C14", G, "            self._skipws(head, head.input_str)\n\n            tokens = self._next_tokens(head)\n", "            tokens = self._next_tokens(head)\n            self._skipws(head, head.input_str)\n", "R14.skip-before-fetch")
+fault("C14.layout-consume", "C14", P, "                    in_layout=True,\n                    consume_input=False,", "                    in_layout=True,\n                    consume_input=True,", "R14.subparser")
+fault("C14.layout-tables", "C14", P, "                    ws=None,\n                    return_position=True,", "                    ws=None,\n                    tables=tables,\n                    return_position=True,", "R14.subparser")
+fault("C14.layout-ws", "C14", P, "                    actions=layout_actions,\n                    ws=None,", "                    actions=layout_actions,\n                    ws=ws,", "R14.subparser")
+fault("C14.layout-cached", "C14", T, "    if in_layout:\n        # For layout grammars always calculate table.", "    if in_layout and force_create:\n        # For layout grammars always calculate table.", "R14.subparser")
+fault("C14.skipws-cache", "C14", P, "            _, pos = self.layout_parser.parse(input_str, head.position)\n", "            pos = self._layout_ends.get(head.position)\n            if pos is None:\n                _, pos = self.layout_parser.parse(input_str, head.position)\n                self._layout_ends[head.position] = pos\n", None,
+      edits=[("            _, pos = self.layout_parser.parse(input_str, head.position)\n", "            pos = self._layout_ends.get(head.position)\n            if pos is None:\n                _, pos = self.layout_parser.parse(input_str, head.position)\n                self._layout_ends[head.position] = pos\n"),
+             ("        self.ws = ws\n        self.return_position", "        self.ws = ws\n        self._layout_ends = {}\n        self.return_position")])
+fault("C14.ws-regex", "C14", P, "            old_pos = head.position\n            try:\n", "            old_pos = head.position\n            import re\n            m_ = re.compile(f\"[{self.ws}]+\").match(input_str, head.position)\n            if m_:\n                head.position = m_.end()\n            try:\n", None)
+fault("C14.ws-slice-old", "C14", P, "            layout_content_ahead = input_str[old_pos : head.position]", "            layout_content_ahead = input_str[head.position : head.position]", "R08.layout-slice")
+benign("C14.b-merge-ifs", "C14", P, "            if head.token_ahead is None:\n                if not self.in_layout:\n                    self._skipws(head, input_str)\n", "            if head.token_ahead is None and not self.in_layout:\n                self._skipws(head, input_str)\n            if head.token_ahead is None:\n                if False:\n                    pass\n")
+
+# ---------------------------------------------------------------- C17
+fault("C17.stop-any-position", "C17", P, "        if STOP in actions and (\n            not self.consume_input or (self.consume_input and position == in_len)\n        ):", "        if STOP in actions:", "R17.stop-offer")
+fault("C17.stop-only-end", "C17", P, "            not self.consume_input or (self.consume_input and position == in_len)", "            position == in_len", "R17.stop-offer")
+fault("C17.stop-and", "C17", P, "            not self.consume_input or (self.consume_input and position == in_len)", "            not self.consume_input and position == in_len", "R17.stop-offer")
+fault("C17.no-lr-fallback", "C17", P, "            if not actions and not self.consume_input:\n                # If we don't have any action", "            if not actions and not self.consume_input and head.token_ahead is None:\n                # If we don't have any action", "R17.lr-fallback")
+fault("C17.fallback-always", "C17", P, "            if not actions and not self.consume_input:\n                # If we don't have any action", "            if not actions:\n                # If we don't have any action", "R17.lr-fallback")
+fault("C17.accept-once", "C17", G, "                if not self._in_error_reporting:\n                    self._accepted_heads.append(head)", "                if not self._in_error_reporting and head not in self._accepted_heads:\n                    self._accepted_heads.append(head)", "R17.accumulate")
+fault("C17.accept-in-error-mode", "C17", G, "                if not self._in_error_reporting:\n                    self._accepted_heads.append(head)", "                if True:\n                    self._accepted_heads.append(head)", "R17.accumulate")
+fault("C17.actor-break", "C17", G, "                self._for_shifter.append((head, action.state))\n            elif action.action == REDUCE:", "                self._for_shifter.append((head, action.state))\n                break\n            elif action.action == REDUCE:", "R17.accumulate")
+fault("C17.clear-accepted-in-loop", "C17", G, "            self._do_shifts()\n\n            if not self._active_heads and not self._accepted_heads:", "            self._do_shifts()\n            if self._active_heads:\n                self._accepted_heads = []\n\n            if not self._active_heads and not self._accepted_heads:", "R17.accumulate")
+fault("C17.stop-at-accept", "C17", G, "        while self._active_heads or self._in_error_reporting:\n            if self.debug:\n                a_print(\n                    f\"** REDUCING", "        while (self._active_heads and not self._accepted_heads) or self._in_error_reporting:\n            if self.debug:\n                a_print(\n                    f\"** REDUCING", "R17.accumulate")
+fault("C17.merge-first-only", "C17", G, "        self.possibilities.extend(other.possibilities)\n        self._solutions = None", "        self.possibilities.append(other.possibilities[0])\n        self._solutions = None", "R17.forest-root")
+fault("C17.root-first-head", "C17", TR, "        results = [p for r in parser._accepted_heads for p in r.parents.values()]", "        results = [p for r in parser._accepted_heads[:1] for p in r.parents.values()]", "R17.forest-root")
+fault("C17.rehome", "C17", TR, "            result = results.pop()\n            self.result.merge(result)", "            result = results.pop()\n            for node in result.possibilities:\n                node.context = self.result\n            self.result.merge(result)", "R17.forest-root")
+benign("C17.b-fold-redundant", "C17", P, "            not self.consume_input or (self.consume_input and position == in_len)", "            not self.consume_input or position == in_len")
